@@ -183,3 +183,57 @@ Print Assumptions C09_source_envelope_shape.
 Theorem C09_source_rise_rejected : forall nid elb dur rise o n, dur < 2 * rise -> gen_envelope nid elb dur rise o n = None.
 Proof. exact source_rise_rejected. Qed.
 Print Assumptions C09_source_rise_rejected.
+
+(* ------------------------------------------------------------------ *)
+(* bookkeeping after ANY history of next(n) | reset() | queries | get_samples_remaining() on one object
+   (run_state = the state the harness-driven run_ops ends in, see C01_run_ops_app; pos_after = samples drawn since
+   the last reset).  Vocabulary: Stim/SpecX.v, proofs: Stim/ProofsX.v *)
+From PV Require Import Stim.SpecX Stim.ProofsX.
+
+Theorem C09_bookkeeping_history : forall g h, wf g = true -> ops_nonneg h = true ->
+  exists s1, run_state all_repaired g (greset all_repaired g) h = Some s1 /\
+    (forall ops, run_gen g (h ++ ops) = run_gen g h ++ run_ops all_repaired g (Some s1) ops) /\
+    let drawn := pos_after g 0 h in
+    0 <= drawn /\
+    (forall total, finite_total g = Some total ->
+       remaining g s1 = Some (Z.max (total - drawn) 0) /\
+       complete g s1 = (total <=? drawn) /\
+       (has_n_samples g = true -> n_samples g s1 = Some total)) /\
+    (finite_total g = None -> remaining g s1 = None /\ complete g s1 = false /\ n_samples g s1 = None).
+Proof. exact bookkeeping_history. Qed.
+Print Assumptions C09_bookkeeping_history.
+
+(* after get_samples_remaining() - wherever the generator was before - a finite generator is complete, nothing
+   remains, and exactly max(drawn, total) samples have been drawn since the last reset *)
+Theorem C09_rest_completes : forall g h total, wf g = true -> ops_nonneg h = true -> finite_total g = Some total ->
+  exists s1, run_state all_repaired g (greset all_repaired g) (h ++ [Rest]) = Some s1 /\
+    complete g s1 = true /\ remaining g s1 = Some 0 /\
+    pos_after g 0 (h ++ [Rest]) = Z.max (pos_after g 0 h) total.
+Proof. exact rest_completes. Qed.
+Print Assumptions C09_rest_completes.
+
+(* any draw from a complete gated / enveloped / fixed / repeated stimulus (multiplicative wrappers included), after ANY
+   history: it does not raise, has the requested length, is all zero, and the generator stays complete with 0 remaining *)
+Theorem C09_draw_past_end_zero_partial : forall g h n, wf g = true -> zero_tail g = true ->
+  ops_nonneg h = true -> 0 <= n ->
+  exists s1, run_state all_repaired g (greset all_repaired g) h = Some s1 /\
+    (complete g s1 = true ->
+     exists s2 out, gnext all_repaired g s1 n = Some (s2, out) /\
+       zlen out = n /\ all_zero out = true /\ complete g s2 = true /\ remaining g s2 = Some 0).
+Proof. exact draw_past_end_zero_partial. Qed.
+Print Assumptions C09_draw_past_end_zero_partial.
+
+(* for EVERY finite generator the statement is false: a stateful filter (NotchFilterFactory) over a gated input reports
+   its input's sample count and completion, but keeps returning its own (ringing) output after that *)
+Theorem C09_draw_past_end_zero_refuted : exists g h n s1 s2 out total,
+  wf g = true /\ ops_nonneg h = true /\ 0 <= n /\ finite_total g = Some total /\
+  run_state all_repaired g (greset all_repaired g) h = Some s1 /\ complete g s1 = true /\
+  gnext all_repaired g s1 n = Some (s2, out) /\ all_zero out = false.
+Proof. exact draw_past_end_zero_refuted. Qed.
+Print Assumptions C09_draw_past_end_zero_refuted.
+
+Example C09_history_ex : wf (GSam 4 3 (GGate 1 6 (GCar 1))) = true /\
+  ops_nonneg [Next 3; Rest; Reset; Next 2; Query] = true /\
+  finite_total (GSam 4 3 (GGate 1 6 (GCar 1))) = Some 7 /\ zero_tail (GSam 4 3 (GGate 1 6 (GCar 1))) = true /\
+  pos_after (GSam 4 3 (GGate 1 6 (GCar 1))) 0 [Next 3; Rest; Reset; Next 2; Query] = 2.
+Proof. vm_compute. repeat split; reflexivity. Qed.
